@@ -68,8 +68,8 @@ ASSUMPTIONS = ["wrapped functions are deterministic, finite and pure (the record
                "rounding allowance 64 eps (1+|x|max/h)^3 S as derived in DESIGN C14; clauses whose allowance exceeds "
                "1e-3 S are reported as *_weak evaluations only",
                "value bounds are finite with min <= max"]
-QUICK = dict(cases=170, workers=2, timecap=40)
-THOROUGH = dict(cases=14000, workers=16, timecap=600)
+QUICK = dict(cases=1200, workers=2, timecap=40)
+THOROUGH = dict(cases=60000, workers=16, timecap=600)
 REQUIRED = {"history": 3000, "repeat": 100, "outside_raise": 300, "outside_passthrough": 300, "inside": 3000,
             "node": 1000, "multilinear": 500, "errbound": 1000, "bounds": 300}
 
@@ -122,7 +122,7 @@ class Fn:
             t = 0.0
             for d in range(self.dim):
                 t += fd["k"][d] * u[d]
-            return fd["a"] * math.exp(t)
+            return fd["a"] * math.exp(min(t, 600.0))      # saturated: far out-of-area pass-through points stay finite
         if k == "gauss":
             t = 0.0
             for d in range(self.dim):
@@ -154,6 +154,37 @@ class Fn:
         if k == "exp":
             t = sum(max(fd["k"][d] * hull[d][0], fd["k"][d] * hull[d][1]) for d in range(self.dim))
             return abs(fd["a"]) * math.exp(t)
+        raise ValueError(k)
+
+    def grad(self, hull):
+        """bounds of |dF/du_d| over the hull"""
+        fd = self.fd
+        k = self.kind
+        um = [max(abs(lo), abs(hi)) for lo, hi in hull]
+        if k == "const":
+            return [0.0] * self.dim
+        if k in ("multilinear", "quadratic"):
+            out = []
+            for d in range(self.dim):
+                s = 0.0
+                for mask, c in fd["terms"]:
+                    if mask >> d & 1:
+                        t = abs(c)
+                        for e in range(self.dim):
+                            if e != d and mask >> e & 1:
+                                t *= um[e]
+                        s += t
+                if k == "quadratic":
+                    s += 2.0 * abs(fd["q"][d]) * um[d]
+                out.append(s)
+            return out
+        if k in ("sinprod", "sinsum"):
+            return [abs(fd["a"]) * abs(fd["k"][d]) for d in range(self.dim)]
+        if k == "exp":
+            m = self.mag(hull)
+            return [m * abs(fd["k"][d]) for d in range(self.dim)]
+        if k == "gauss":
+            return [abs(fd["a"]) * 0.61 / fd["s"][d] for d in range(self.dim)]
         raise ValueError(k)
 
     def curv(self, hull):
@@ -513,119 +544,161 @@ def _grid(nodes, dim):
     return axes, xmax, hmin
 
 
-def _allow(xmax, hmin, S):
-    r = 1.0 + max(xm / h for xm, h in zip(xmax, hmin))
-    return 64.0 * EPS * r ** 3 * S, r
+def _envelope(F, case, nodes, pts, bounds):
+    """Rounding allowance and local node spacings, from the recorded nodes only.
+
+    tol_round = 1e-9 S + max(A_design, A_model):
+      A_design = 64 eps (1 + max_d rho_d)^3 S                       (DESIGN C14, frozen)
+      A_model  = 64 eps S prod_d g_d,  g_d = 1 + 2 rho_d th1_d + 8 rho_d^2 (1 + rho_d) th2_d
+    rho_d = |x_d|max / h_d(min gap); th1_d = min(1, H_d max|df/dx_d| / S_f); th2_d = min(4, 6 H_d^2 max|d2f/dx_d2| / S_f).
+    A_model is eps times the summed magnitude of the monomial terms of the cell polynomial written in absolute
+    coordinates (cell coefficients a_0 <= S_f, a_1 ~ h f', a_2,a_3 <= 6 H^2 max|f''|, each multiplied by (2 rho)^k).
+    """
+    dim = case["dim"]
+    axes, xmax, hmin = _grid(nodes, dim)
+    ext = [case["hi"][d] - case["lo"][d] for d in range(dim)]
+    centre = case["_centre"]
+    hull = [(min((axes[d][0] - centre[d]) / ext[d], -0.5), max((axes[d][-1] - centre[d]) / ext[d], 0.5)) for d in range(dim)]
+    Sf = F.mag(hull)
+    if not (Sf > 0 and math.isfinite(Sf)):
+        Sf = 1e-300
+    S = Sf if bounds is None else max(Sf, abs(bounds[0]), abs(bounds[1]))
+    P = np.array(pts, dtype=float).reshape(-1, dim)
+    ok = np.ones(len(pts), dtype=bool)
+    Hs = np.zeros((len(pts), dim))
+    for d in range(dim):
+        a = axes[d]
+        if a.size < 4:
+            ok &= False
+            Hs[:, d] = float(np.diff(a).max()) if a.size > 1 else 0.0
+            continue
+        i = np.searchsorted(a, P[:, d], side="right") - 1
+        ok &= (i >= 1) & (i + 2 <= a.size - 1)
+        i = np.clip(i, 1, a.size - 3)
+        Hs[:, d] = np.maximum(np.maximum(a[i] - a[i - 1], a[i + 1] - a[i]), a[i + 2] - a[i + 1])
+    G = F.grad(hull)
+    cu = F.curv(hull)
+    rho, g = [], 1.0
+    for d in range(dim):
+        Hd = float(Hs[ok, d].max()) if ok.any() else (float(np.diff(axes[d]).max()) if axes[d].size > 1 else ext[d])
+        th1 = min(1.0, Hd / ext[d] * G[d] / Sf)
+        th2 = min(4.0, 6.0 * (Hd / ext[d]) ** 2 * cu[d] / Sf)
+        r = xmax[d] / hmin[d]
+        rho.append(r)
+        g *= 1.0 + 2.0 * r * th1 + 8.0 * r * r * (1.0 + r) * th2
+    a_design = 64.0 * EPS * (1.0 + max(rho)) ** 3 * S
+    a_model = 64.0 * EPS * S * g
+    tol = 1e-9 * S + max(a_design, a_model)
+    return dict(S=S, Sf=Sf, tol=tol, weak=bool(tol > 1e-3 * S), rho=rho, axes=axes, Hs=Hs, ok=ok, cu=cu, ext=ext,
+                a_design=a_design, a_model=a_model)
 
 
-def _judge(ctx, name, err, tol, S, allow):
+def _judge(ctx, name, err, tol, weak):
     """Count under the deciding monitor only when the cancellation allowance leaves the clause decidable."""
     err = np.asarray(err, dtype=float)
     tol = np.broadcast_to(np.asarray(tol, dtype=float), err.shape)
-    weak = allow > 1e-3 * S
     mon = name + ("_weak" if weak else "")
     ctx.mon(mon, int(err.size))
     with np.errstate(divide="ignore", invalid="ignore"):
         ratio = np.where(err == 0, 0.0, err / tol)
     ratio = np.where(np.isfinite(err), ratio, np.inf)
-    fin = ratio[np.isfinite(ratio)]
+    fin = ratio[np.isfinite(ratio) & (ratio <= 1.0)]     # margin of the comparisons that held; failures are reported
     if fin.size:
         ctx.margin(mon, float(fin.max()))
     bad = ~(ratio <= 1.0)
     if bad.any():
-        return int(np.argmax(np.where(np.isfinite(ratio), ratio, np.inf))), weak
-    return None, weak
+        return int(np.argmax(np.where(np.isnan(ratio), np.inf, ratio)))
+    return None
 
 
-def _clauses(ctx, case, F, f, cname, lo, hi, res, bounds, pts, vals, nodes, cache, diag=False):
-    """Numerical clauses on one driven cache.  Returns list of failures [(clause, what, detail)]; counts monitors unless
-    diag (diagnosis run on the translated problem)."""
+class _Quiet:
+    """ctx stand-in for diagnosis drives: swallows counters and verdicts (the diagnosis only classifies)."""
+
+    def __init__(self, ctx):
+        self.ctx = ctx
+
+    def mon(self, *a, **k):
+        pass
+
+    def check(self, ok, *a, **k):
+        return bool(ok)
+
+    def margin(self, *a, **k):
+        pass
+
+
+class _NoCount:      # counting shim: diagnosis runs must not inflate the evidence
+    def mon(self, *a, **k):
+        pass
+
+    def margin(self, *a, **k):
+        pass
+
+
+def _clauses(ctx, case, F, f, lo, hi, bounds, pts, vals, nodes, cache, diag=False):
+    """Numerical clauses on one driven cache: node exactness, multilinear reproduction / error bound.
+    Returns (failures [(clause, what, detail)], decided)."""
     dim = case["dim"]
     fails = []
     if not nodes:
         return fails, False
-    axes, xmax, hmin = _grid(nodes, dim)
-    ext = [case["hi"][d] - case["lo"][d] for d in range(dim)]
-    centre = case["_centre"]
-    hull = [((axes[d][0] - centre[d]) / ext[d], (axes[d][-1] - centre[d]) / ext[d]) for d in range(dim)]
-    hull = [(min(a, -0.5), max(b, 0.5)) for a, b in hull]
-    S = F.mag(hull)
-    if bounds is not None:
-        S = max(S, abs(bounds[0]), abs(bounds[1]))
-    if not (S > 0 and math.isfinite(S)):
-        S = 1e-300 if not S > 0 else S
-    allow, r = _allow(xmax, hmin, S)
-    decided = False
-
-    class _C:      # counting shim: diagnosis runs must not inflate the evidence
-        def mon(self, *a, **k):
-            pass
-
-        def margin(self, *a, **k):
-            pass
-    c = _C() if diag else ctx
+    env = _envelope(F, case, nodes, pts, bounds)
+    S, allow, weak = env["S"], env["tol"], env["weak"]
+    info = dict(allowance=allow, a_design=env["a_design"], a_model=env["a_model"], rho=env["rho"], S=S, fkind=F.kind)
+    c = _NoCount() if diag else ctx
     P = np.array(pts, dtype=float).reshape(-1, dim)
     V = np.array(vals, dtype=float)
     W = np.array([f(*p) for p in pts], dtype=float)
     # ---- node exactness --------------------------------------------------------------------------------
-    uniq = sorted(set(nodes))
-    inn = [n for n in uniq if _inside(n, lo, hi)]
+    inn = [n for n in sorted(set(nodes)) if _inside(n, lo, hi)]
     if len(inn) > 60:
         step = len(inn) / 60.0
         inn = [inn[int(j * step)] for j in range(60)]
     if inn:
-        gv, wv = [], []
-        for n in inn:
-            gv.append(cache(*n))
-            wv.append(f(*n))
-        e = np.abs(np.array(gv) - np.array(wv))
-        k, weak = _judge(c, "node", e, allow, S, allow)
-        decided = decided or not weak
+        gv = [cache(*n) for n in inn]
+        wv = [f(*n) for n in inn]
+        k = _judge(c, "node", np.abs(np.array(gv) - np.array(wv)), allow, weak)
         if k is not None:
             fails.append(("node-exact", "value at a sampling node (an argument the wrapped function received) differs from "
                           "the wrapped function beyond the rounding allowance",
-                          dict(node=list(inn[k]), got=gv[k], want=wv[k], tol=allow, r=r, S=S)))
+                          dict(node=list(inn[k]), got=gv[k], want=wv[k], tol=allow, **info)))
     elif not diag:
         ctx.skip("no recorded node inside the area (two-node axis): node clause not evaluated")
     # ---- multilinear reproduction ----------------------------------------------------------------------
     e = np.abs(V - W)
     if F.kind in ("const", "multilinear"):
-        k, weak = _judge(c, "multilinear", e, allow, S, allow)
-        decided = decided or not weak
+        k = _judge(c, "multilinear", e, allow, weak)
         if k is not None:
             fails.append(("multilinear", "a function that is linear in each coordinate is not reproduced within the rounding "
-                          "allowance", dict(point=list(P[k]), got=float(V[k]), want=float(W[k]), tol=allow, r=r, S=S,
-                                            fkind=F.kind)))
+                          "allowance", dict(point=list(P[k]), got=float(V[k]), want=float(W[k]), tol=allow, **info)))
     else:
         # ---- h^2 max|f''| bound ------------------------------------------------------------------------
-        cu = F.curv(hull)
+        ok, Hs, cu, ext = env["ok"], env["Hs"], env["cu"], env["ext"]
         tol = np.full(len(pts), allow)
-        ok = np.ones(len(pts), dtype=bool)
-        Hs = np.zeros((len(pts), dim))
         for d in range(dim):
-            a = axes[d]
-            i = np.searchsorted(a, P[:, d], side="right") - 1
-            good = (i >= 1) & (i + 2 <= a.size - 1)
-            ok &= good
-            i = np.clip(i, 1, max(a.size - 3, 1))
-            if a.size >= 4:
-                H = np.maximum(np.maximum(a[i] - a[i - 1], a[i + 1] - a[i]), a[i + 2] - a[i + 1])
-            else:
-                H = np.zeros(len(pts))
-                ok &= False
-            Hs[:, d] = H
-            tol = tol + (H / ext[d]) ** 2 * cu[d]
+            tol = tol + (Hs[:, d] / ext[d]) ** 2 * cu[d]
         if ok.any():
-            k, weak = _judge(c, "errbound", e[ok], tol[ok], S, allow)
-            decided = decided or not weak
+            k = _judge(c, "errbound", e[ok], tol[ok], weak)
             if k is not None:
                 kk = int(np.flatnonzero(ok)[k])
                 fails.append(("errbound", "interpolation error exceeds sum_d H_d^2 max|d2f/dx_d2| plus the rounding allowance",
-                              dict(point=list(P[kk]), got=float(V[kk]), want=float(W[kk]), tol=float(tol[kk]), allow=allow,
-                                   H=list(Hs[kk]), curv_norm=cu, r=r, S=S, fkind=F.kind)))
+                              dict(point=list(P[kk]), got=float(V[kk]), want=float(W[kk]), tol=float(tol[kk]),
+                                   H=list(Hs[kk]), curv_norm=cu, **info)))
         if (~ok).any() and not diag:
             ctx.skip("point without four recorded neighbouring node coordinates: error bound not evaluated")
-    return fails, decided
+    return fails, not weak
+
+
+def _bounds_clause(ctx, case, F, bounds, pts, vals, vals_nb, nodes_nb, diag=False):
+    env = _envelope(F, case, nodes_nb, pts, bounds)
+    e = np.abs(np.array(vals, dtype=float) - np.array(vals_nb, dtype=float))
+    k = _judge(_NoCount() if diag else ctx, "bounds", e, 2 * env["tol"], env["weak"])
+    fails = []
+    if k is not None:
+        fails.append(("bounds", "supplying function_boundaries changes the result beyond the rounding allowance",
+                      dict(point=pts[k], with_bounds=vals[k], without_bounds=float(vals_nb[k]), tol=2 * env["tol"],
+                           rho=env["rho"], S=env["S"], bounds=bounds, bclass=case["bclass"], fkind=F.kind)))
+    return fails, not env["weak"]
 
 
 def _translated(case):
@@ -713,27 +786,18 @@ def run_case(case, ctx):
         ctx.viol("nonfinite:%s" % cname, "cache returned a non-finite value for a finite function inside the area",
                  point=pts[bad], got=vals[bad], want=f(*pts[bad]))
         return
-    fails, decided = _clauses(ctx, case, F, f, cname, lo, hi, res, bounds, pts, vals, ref["nodes"], ref["cache"])
+    fails, decided = _clauses(ctx, case, F, f, lo, hi, bounds, pts, vals, ref["nodes"], ref["cache"])
 
     # ---- value bounds must not change results ----------------------------------------------------------
+    seq_in = [s for s in case["orders"][0]["seq"] if s[0] == "i"]
     if bounds is not None:
-        seq = [s for s in case["orders"][0]["seq"] if s[0] == "i"]
-        c2, rec2, got2, nodes2 = _drive(ctx, cname, dim, f, lo, hi, res, False, None, seq, pts, outs, judge_outside=False)
+        c2, rec2, got2, nodes2 = _drive(ctx, cname, dim, f, lo, hi, res, False, None, seq_in, pts, outs, judge_outside=False)
         ctx.mon("caches")
         if all(k in got2 for k in range(len(pts))) and nodes2:
-            v2 = np.array([got2[k][0] for k in range(len(pts))])
-            axes, xmax, hmin = _grid(nodes2, dim)
-            centre = case["_centre"]
-            hull = [(min((axes[d][0] - centre[d]) / ext[d], -0.5), max((axes[d][-1] - centre[d]) / ext[d], 0.5)) for d in range(dim)]
-            S = max(F.mag(hull), abs(bounds[0]), abs(bounds[1]), 1e-300)
-            allow, r = _allow(xmax, hmin, S)
-            e = np.abs(np.array(vals) - v2)
-            k, weak = _judge(ctx, "bounds", e, 2 * allow, S, allow)
-            decided = decided or not weak
-            if k is not None:
-                fails.append(("bounds", "supplying function_boundaries changes the result beyond the rounding allowance",
-                              dict(point=pts[k], with_bounds=vals[k], without_bounds=float(v2[k]), tol=2 * allow, r=r, S=S,
-                                   bounds=bounds, bclass=case["bclass"])))
+            v2 = [got2[k][0] for k in range(len(pts))]
+            bf, dec = _bounds_clause(ctx, case, F, bounds, pts, vals, v2, nodes2)
+            fails += bf
+            decided = decided or dec
 
     if ncomp >= 5 and len(runs) >= 2 and decided:
         ctx.nontrivial()
@@ -745,26 +809,25 @@ def run_case(case, ctx):
         if off > 1.5:
             t = _translated(case)
             tf = phys(F, t["_centre"], ext)
-            seq = [s for s in case["orders"][0]["seq"] if s[0] == "i"]
-            tc, trec, tgot, tnodes = _drive(ctx, cname, dim, tf, t["lo"], t["hi"], res, False, bounds, seq, t["pts"], [],
+            shim = _Quiet(ctx)
+            tc, trec, tgot, tnodes = _drive(shim, cname, dim, tf, t["lo"], t["hi"], res, False, bounds, seq_in, t["pts"], [],
                                             judge_outside=False)
-            if all(k in tgot for k in range(len(pts))):
+            if all(k in tgot for k in range(len(pts))) and tnodes:
                 tvals = [tgot[k][0] for k in range(len(pts))]
-                tfail, _ = _clauses(ctx, t, F, tf, cname, t["lo"], t["hi"], res, bounds, t["pts"], tvals, tnodes, tc, diag=True)
-                if bounds is not None and not tfail:
-                    tc2, _, tgot2, tn2 = _drive(ctx, cname, dim, tf, t["lo"], t["hi"], res, False, None, seq, t["pts"], [],
+                tfail, _ = _clauses(ctx, t, F, tf, t["lo"], t["hi"], bounds, t["pts"], tvals, tnodes, tc, diag=True)
+                if bounds is not None:
+                    tc2, _, tgot2, tn2 = _drive(shim, cname, dim, tf, t["lo"], t["hi"], res, False, None, seq_in, t["pts"], [],
                                                 judge_outside=False)
-                    tv2 = np.array([tgot2[k][0] for k in range(len(pts))])
-                    axes, xmax, hmin = _grid(tn2, dim)
-                    S = max(F.mag([(-0.5 - res[d] / ext[d], 0.5 + res[d] / ext[d]) for d in range(dim)]),
-                            abs(bounds[0]), abs(bounds[1]), 1e-300)
-                    al, _r = _allow(xmax, hmin, S)
-                    if (np.abs(np.array(tvals) - tv2) > 2 * al).any():
-                        tfail = [("bounds", "", {})]
+                    if all(k in tgot2 for k in range(len(pts))) and tn2:
+                        bf, _ = _bounds_clause(ctx, t, F, bounds, t["pts"], tvals, [tgot2[k][0] for k in range(len(pts))], tn2,
+                                               diag=True)
+                        tfail = tfail + bf
         for clause, what, detail in fails:
             if tfail is not None and not tfail:
                 ctx.viol(ROUNDOFF_KEY % cname,
                          "%s clause fails on an area far from the origin although the same function on the same area translated "
-                         "to the origin satisfies it: %s" % (clause, what), clause=clause, offset_in_extents=off, **detail)
+                         "to the origin satisfies every clause: %s" % (clause, what), clause=clause, offset_in_extents=off,
+                         **detail)
             else:
-                ctx.viol("%s:%s" % (clause, cname), what, translated_also_fails=bool(tfail), **detail)
+                ctx.viol("%s:%s" % (clause, cname), what,
+                         translated_fails=None if tfail is None else [x[0] for x in tfail], **detail)
